@@ -150,6 +150,7 @@ type Enc struct {
 	dryCache        []dryCached
 	recGhost        map[string]bool
 	trustedClauses  []string // "trusted ensures" clauses of the function under verification (not checked)
+	closedFacts     map[string]bool // universally closed side facts already emitted (bound names normalised)
 }
 
 func newEnc(P *Program, db *SpecDB, ti *TypeInfo) *Enc {
